@@ -342,6 +342,6 @@ def decide_lits(report, prop, lits, bad, stats, proof, spec_codes, model_codes):
                           "case_kind": lits[i][0], "case": lits[i][1][:6000], "model_code": m, "disagreements": len(model_bad), "also": proof.get("broken"),
                           "search": f"specification evaluated on all {stats['observed']} cases of this run: no failing input"}, False, tag=f"model{m}")
         return
-    if not proof["ok"]:
+    if not proof["ok"] and not getattr(report, "concrete", 0):     # (a failing input was already reported: its replay names the obligation)
         report.violation({"kind": "broken-obligation", "obligation": proof["broken"],
                           "search": f"model and specification evaluated on {stats['observed']} cases: implementation agrees with both"}, False, tag="proof")
